@@ -52,10 +52,17 @@ pub fn hostile(rng: &mut Rng, srv: &[u8]) -> Dgram {
             let ietf = rng.chance(1, 2);
             let mut m = RefMsg::new();
             m.set(NONC, &rng.bytes(if ietf { 32 } else { 64 }));
-            if ietf {
+            // a third of the framed ones name no version at all in VER (a response-only VERS
+            // naming draft-13 does not make up for it)
+            let no_ver = ietf && rng.chance(1, 3);
+            if ietf && !no_ver {
                 m.set(VER, &DRAFT13.to_le_bytes());
             }
             for t in [SIG, SRV, DELE, PATH, RADI, PUBK, MIDP, SREP, VERS, MINT, ROOT, CERT, MAXT, INDX, ZZZZ, PAD] {
+                if no_ver && t == VERS && rng.chance(3, 4) {
+                    m.set(VERS, &DRAFT13.to_le_bytes());
+                    continue;
+                }
                 if rng.chance(1, 4) && !(ietf && t == SRV) {
                     let l = 4 * rng.below(3) as usize;
                     m.set(t, &rng.bytes(l));
@@ -75,7 +82,7 @@ pub fn hostile(rng: &mut Rng, srv: &[u8]) -> Dgram {
                 m.fields[i + 1].0 = a;
             }
             let d = if ietf { m.encode_framed() } else { m.encode() };
-            Dgram { data: d, class: if swapped { "tag-subset-one-pair-swapped" } else { "tag-subset-ascending" } }
+            Dgram { data: d, class: if no_ver { "ietf-without-ver-other-tags" } else if swapped { "tag-subset-one-pair-swapped" } else { "tag-subset-ascending" } }
         }
         36 | 37 => {
             // VER value whose BYTES contain the draft-13 word at an unaligned offset, while none of
